@@ -169,9 +169,22 @@ def r18_1(ctx):
             if p.end != 'return':
                 continue
             d = [x for x in p.decisions if x[2][0] == 'discr']
-            if not d or not isinstance(d[-1][3], int) or d[-1][3] >= len(names):
+            if not d:
                 continue
-            res[names[d[-1][3]]] = p.ret()
+            val = d[-1][3]
+            if isinstance(val, tuple) and val and val[0] == 'not':
+                rest = [i for i in range(len(names)) if i not in val[1]]
+                val = rest[0] if len(rest) == 1 else None
+            if not isinstance(val, int) or val >= len(names):
+                continue
+            rv = p.ret()
+            from sym import const_eval
+            cv = const_eval(rv)
+            if cv is None and rv[0] == 'un' and rv[1] == 'Not' and rv[2][0] == 'const' and rv[2][1] in (0, 1):
+                cv = 1 - rv[2][1]       # boolean negation of a literal (`!matches!(..)`)
+            if cv is not None:
+                rv = ('const', int(cv))
+            res[names[val]] = rv
         done, run = res.get('Done'), res.get('Running')
         if m == 'is_match':
             ok = done == ('const', 1) and run == ('const', 0)
@@ -212,8 +225,12 @@ def r18_2(ctx):
             if p.end == 'return':
                 rv = p.ret()
                 if rv[0] == 'agg' and rv[1].endswith('::Some'):
-                    d = [x for x in p.decisions if is_call(x[2], 'PartialEq>::eq') and x[3] == 1]
-                    adv = bool(d) and any(x[0] == 'param' and x[2] == 3 for x in walk(d[-1][2])) and any(is_call(x, '<impl [T]>::get') for x in walk(d[-1][2])) and rv[2][0][1][0] == 'bin' and rv[2][0][1][1] == 'Add' and rv[2][0][1][3] == ('const', 1)
+                    d = [x for x in p.decisions if (is_call(x[2], 'PartialEq>::eq') or (x[2][0] == 'bin' and x[2][1] == 'Eq')) and x[3] == 1
+                         and any(y[0] == 'param' and y[2] == 3 for y in walk(x[2]))]
+                    # the other side is the pattern byte at the current position: string.get(pos) or string[pos]
+                    elem = bool(d) and (any(is_call(y, '<impl [T]>::get') for y in walk(d[-1][2]))
+                                        or any(y[0] == 'index' and any(z[0] == 'field' and z[2] == 'string' for z in walk(y[1])) and any(z[0] == 'variant' and z[2] == 'Some' for z in walk(y[2])) for y in walk(d[-1][2])))
+                    adv = bool(d) and elem and rv[2][0][1][0] == 'bin' and rv[2][0][1][1] == 'Add' and rv[2][0][1][3] == ('const', 1) and any(z[0] == 'variant' and z[2] == 'Some' for z in walk(rv[2][0][1][2]))
         ctx.check(R, adv, 'Str:advance', 'Str::accept must advance by one exactly when the pattern byte at the current position equals the input byte', fn=acc)
     # Subsequence: will_always_match(s) = (s == len); accept keeps s when s == len; is_match is the same predicate
     ty = "Subsequence<'a>"
